@@ -113,6 +113,23 @@ def consistentB (s : Store) (acl : Nat) : Bool :=
     | _, _ => true) &&
   aclOkB s acl
 
+/-- executable version of `BatchOk` (Store/Lemmas.lean), the input condition of `consistent_preserved_*`:
+the driver evaluates it on every real AddAll input the harness sends -/
+def batchOkB (s : Store) (t : Nat) (chs : List NewChange) (heads : List Nat) (cs : Nat) : Bool :=
+  chs.all (fun c => (s.get ⟨.changes, c.id⟩).isNone) &&
+  decide ((chs.map (·.id)).Nodup) &&
+  chs.all (fun c => c.v.tree = t) &&
+  chs.all (fun c => c.v.prevs.all (fun p =>
+    storedBeforeB s t c.v.order p || chs.any (fun c' => c'.id = p && c'.v.order < c.v.order))) &&
+  chs.all (fun c => match c.v.snap with
+    | some sn => storedBeforeB s t c.v.order sn || chs.any (fun c' => c'.id = sn && c'.v.order < c.v.order)
+    | none => true) &&
+  !heads.isEmpty &&
+  heads.all (fun x => storedInB s t x || chs.any (fun c => c.id = x)) &&
+  (storedInB s t cs || chs.any (fun c => c.id = cs)) &&
+  (storedInB s t t || chs.any (fun c => c.id = t)) &&
+  chs.all (fun c => c.id = t || (headsAt s c.id).isNone)
+
 /-! ### storage faults and live objects -/
 
 /-- call `k` of `tr` returns an error instead of executing; the code's error path rolls the open
